@@ -277,6 +277,12 @@ class ParticleReleaser(Iterator[pd.DataFrame]):
             df["lon"] = X
             df["lat"] = Y
             df.rename(columns={"lon": "X", "lat": "Y"}, inplace=True)
+        else:
+            # X and Y are used if both X, Y and lon, lat are given,
+            # lon and lat are kept only if they are state variables
+            state_vars = self.modules["state"].dtypes
+            unused = [c for c in ["lon", "lat"] if c in df.columns and c not in state_vars]
+            df = df.drop(columns=unused)
 
         self._df = df
 
